@@ -6,6 +6,7 @@ import (
 	"io"
 	"os"
 	"os/exec"
+	"regexp"
 	"strconv"
 	"strings"
 	"time"
@@ -177,9 +178,9 @@ func (s *Solver) ref(t *Term) string {
 	case OpVar:
 		if !s.isEmitted(t) {
 			s.markEmitted(t)
-			fmt.Fprintf(&s.buf, "(declare-const |%s| %s)\n", t.Name, sortStr(t.W))
+			fmt.Fprintf(&s.buf, "(declare-const %s %s)\n", varSMT(t), sortStr(t.W))
 		}
-		return "|" + t.Name + "|"
+		return varSMT(t)
 	}
 	name := "t" + strconv.Itoa(t.ID)
 	if s.isEmitted(t) {
@@ -216,12 +217,18 @@ func (s *Solver) ref(t *Term) string {
 	return name
 }
 
+// varSMT is the solver-level name of a variable: harness names may be reused at
+// different widths in different entries, so the width is part of the symbol.
+func varSMT(t *Term) string {
+	return "|" + t.Name + "~" + strconv.Itoa(t.W) + "|"
+}
+
 func (s *Solver) argRef(t *Term) string {
 	switch t.Op {
 	case OpConst:
 		return constStr(t)
 	case OpVar:
-		return "|" + t.Name + "|"
+		return varSMT(t)
 	}
 	return "t" + strconv.Itoa(t.ID)
 }
@@ -378,18 +385,30 @@ func (s *Solver) Check(pc []*Term, q *Term, vars []*Term) (Result, map[string]ui
 	var model map[string]uint64
 	if res == Sat && len(vars) > 0 {
 		model = map[string]uint64{}
-		// one get-value per variable keeps the parsing trivial
-		for i, v := range vars {
-			s.send("(get-value (" + vrefs[i] + "))\n")
+		// one get-value for all variables; values come back in request order
+		for lo := 0; lo < len(vars); lo += 200 {
+			hi := lo + 200
+			if hi > len(vars) {
+				hi = len(vars)
+			}
+			s.send("(get-value (" + strings.Join(vrefs[lo:hi], " ") + "))\n")
 			l := s.readLine()
 			for strings.Count(l, "(") > strings.Count(l, ")") {
 				l += " " + s.readLine()
 			}
-			val, ok := parseValue(l)
-			if !ok {
+			vals := valueRe.FindAllStringSubmatch(l, -1)
+			if len(vals) != hi-lo {
 				s.Errors = append(s.Errors, "get-value: "+l)
+				continue
 			}
-			model[v.Name] = val
+			for i, vm := range vals {
+				vs := vm[1]
+				val, ok := parseValue("((x " + vs + "))")
+				if !ok {
+					s.Errors = append(s.Errors, "get-value: "+vs)
+				}
+				model[vars[lo+i].Name] = val
+			}
 		}
 	}
 	s.send("(pop 1)\n")
@@ -422,6 +441,8 @@ func (s *Solver) Check(pc []*Term, q *Term, vars []*Term) (Result, map[string]ui
 	}
 	return res, model
 }
+
+var valueRe = regexp.MustCompile(`\s(#x[0-9a-fA-F]+|#b[01]+|true|false|\(_ bv\d+ \d+\))\)`)
 
 // parseValue parses "((name #x..))", "((name #b..))", "((name true))", "((name (_ bv5 8)))".
 func parseValue(l string) (uint64, bool) {
